@@ -149,22 +149,19 @@ func (c content) dupKey() (int, bool) {
 }
 
 func scalarRank(n *jnode, typ string) (int, error) {
-	switch typ {
-	case "string":
+	if isStr(typ) {
 		if n.kind != 's' {
 			return 0, fmt.Errorf("JSON %s where a string is expected", kindName(n.kind))
 		}
-		if r, ok := strCodec.idx[n.str]; ok {
+		if r, ok := strOf(typ).idx[n.str]; ok {
 			return r, nil
 		}
 		return 0, fmt.Errorf("string %s is not an atom of the pool", showString(n.str))
-	case "int", "rank":
-		if n.kind != 'n' {
-			return 0, fmt.Errorf("JSON %s where an integer is expected", kindName(n.kind))
-		}
-		return intTextRank(n.str, typ)
 	}
-	return 0, errors.New("unknown atom type " + typ)
+	if n.kind != 'n' {
+		return 0, fmt.Errorf("JSON %s where an integer is expected", kindName(n.kind))
+	}
+	return intTextRank(n.str, typ)
 }
 
 func intTextRank(s, typ string) (int, error) {
@@ -172,19 +169,15 @@ func intTextRank(s, typ string) (int, error) {
 	if err != nil {
 		return 0, fmt.Errorf("%q is not an integer", s)
 	}
-	c := intCodec
-	if typ == "rank" {
-		c = rankCodec
-	}
-	if r, ok := c.idx[int(v)]; ok {
+	if r, ok := intOf(typ).idx[int(v)]; ok {
 		return r, nil
 	}
 	return 0, fmt.Errorf("integer %d is not an atom of the pool", v)
 }
 
 func keyRank(k, typ string) (int, error) {
-	if typ == "string" {
-		if r, ok := strCodec.idx[k]; ok {
+	if isStr(typ) {
+		if r, ok := strOf(typ).idx[k]; ok {
 			return r, nil
 		}
 		return 0, fmt.Errorf("key %s is not an atom of the pool", showString(k))
@@ -232,23 +225,21 @@ func docContent(n *jnode, kv bool, kt, vt string) (content, error) {
 // ---------- denotation with encoding/json only ----------
 
 func decodeAtom(dec *json.Decoder, typ string) (int, error) {
-	switch typ {
-	case "string":
+	if isStr(typ) {
 		var s string // null leaves the zero value
 		if err := dec.Decode(&s); err != nil {
 			return 0, err
 		}
-		if r, ok := strCodec.idx[s]; ok {
+		if r, ok := strOf(typ).idx[s]; ok {
 			return r, nil
 		}
 		return 0, fmt.Errorf("string %s is not an atom of the pool", showString(s))
-	default:
-		var v int
-		if err := dec.Decode(&v); err != nil {
-			return 0, err
-		}
-		return intTextRank(strconv.Itoa(v), typ)
 	}
+	var v int
+	if err := dec.Decode(&v); err != nil {
+		return 0, err
+	}
+	return intTextRank(strconv.Itoa(v), typ)
 }
 
 // denote: what encoding/json says the document denotes for []T / an ordered member list of
@@ -259,14 +250,14 @@ func denote(doc []byte, kv bool, kt, vt string) (content, error) {
 		return c, errors.New("invalid JSON")
 	}
 	if !kv {
-		switch kt {
-		case "string":
+		switch {
+		case isStr(kt):
 			var xs []string
 			if err := json.Unmarshal(doc, &xs); err != nil {
 				return c, err
 			}
 			for _, s := range xs {
-				r, ok := strCodec.idx[s]
+				r, ok := strOf(kt).idx[s]
 				if !ok {
 					return c, fmt.Errorf("string %s is not an atom of the pool", showString(s))
 				}
@@ -321,15 +312,15 @@ func denote(doc []byte, kv bool, kt, vt string) (content, error) {
 func typedDecodeFails(doc []byte, kv bool, kt, vt string) bool {
 	var target any
 	switch {
-	case !kv && kt == "string":
+	case !kv && isStr(kt):
 		target = &[]string{}
 	case !kv:
 		target = &[]int{}
-	case kt == "string" && vt == "string":
+	case isStr(kt) && isStr(vt):
 		target = &map[string]string{}
-	case kt == "int" && vt == "string":
+	case !isStr(kt) && isStr(vt):
 		target = &map[int]string{}
-	case kt == "string" && vt == "int":
+	case isStr(kt) && !isStr(vt):
 		target = &map[string]int{}
 	default:
 		target = &map[int]int{}
@@ -404,24 +395,24 @@ func (c *docGen) strLit(s string) string {
 }
 
 func (c *docGen) lit(typ string, r int) string {
-	switch typ {
-	case "string":
-		return c.strLit(strCodec.pool[r])
-	case "int":
-		if intCodec.pool[r] == 0 && c.style >= 2 && c.g.chance(20) {
+	switch {
+	case isStr(typ):
+		return c.strLit(strOf(typ).pool[r])
+	case typ != "rank":
+		if intOf(typ).pool[r] == 0 && c.style >= 2 && c.g.chance(20) {
 			return "-0"
 		}
-		return strconv.Itoa(intCodec.pool[r])
+		return strconv.Itoa(intOf(typ).pool[r])
 	}
 	return strconv.Itoa(r)
 }
 
 func (c *docGen) keyLit(typ string, r int) string {
-	switch typ {
-	case "string":
-		return c.strLit(strCodec.pool[r])
-	case "int":
-		v := intCodec.pool[r]
+	switch {
+	case isStr(typ):
+		return c.strLit(strOf(typ).pool[r])
+	case typ != "rank":
+		v := intOf(typ).pool[r]
 		s := strconv.Itoa(v)
 		if c.style >= 2 && v >= 0 {
 			switch x := c.g.intn(100); {
@@ -486,13 +477,10 @@ func (c *docGen) render(ct content, nullAt int) []byte {
 }
 
 func zeroRank(typ string) int {
-	switch typ {
-	case "string":
-		return strCodec.idx[""]
-	case "int":
-		return intCodec.idx[0]
+	if isStr(typ) {
+		return strOf(typ).idx[""]
 	}
-	return 0
+	return intOf(typ).idx[0]
 }
 
 // plainDoc renders a content for the int twin (ranks as decimals, no decoration)
@@ -514,7 +502,7 @@ var syntaxErrors = []string{
 func (c *docGen) malformed(atom func() int, validDoc func() []byte) (doc []byte, what string) {
 	g := c.g
 	badFor := func(typ string) string {
-		if typ == "string" {
+		if isStr(typ) {
 			return g.pick([]string{"1", "true", "false", "{}", "[]", `{"a":"b"}`, `["a"]`, "1.5", "-0", "0"})
 		}
 		return g.pick([]string{`"1"`, `"a"`, `""`, "true", "false", "1.5", "{}", "[1]", "1e2", "0.0", "9223372036854775808", "-9223372036854775809"})
@@ -537,7 +525,7 @@ func (c *docGen) malformed(atom func() int, validDoc func() []byte) (doc []byte,
 		pos := map[string]int{"first": 0, "middle": n / 2, "last": n - 1}[at]
 		var parts []string
 		used := map[int]bool{}
-		keyBad := c.kv && c.kt == "int" && g.chance(35)
+		keyBad := c.kv && !isStr(c.kt) && g.chance(35)
 		for i := 0; i < n; i++ {
 			if !c.kv {
 				if i == pos {
